@@ -83,6 +83,29 @@ class Prov:
             # it->second of a lookup in the mark table / a (key,value) entry of it
             if path[-1:] == ['second'] and root is not None and self.mentions_field(f, root, 'marks'):
                 return {'LABEL'}
+            # a field of a small record local to gen.cpp (e.g. a pair of loop labels): the provenance of everything that is ever
+            # assigned to that field of that record type (field-sensitive, flow-insensitive)
+            base = strip_casts(e['base'])
+            bty = (base.get('cty') or '').replace('const ', '').replace(' &', '').strip()
+            fkey = ('field', bty, e['name'])
+            if bty and fkey not in seen and not bty.startswith(('std::', 'Theo::')) and bty not in ('GenState', 'FunctionGenState', 'VReg', 'Prog', 'FileState'):
+                res = set()
+                found_any = False
+                for g2 in self.m.all_fns():
+                    for x in walk_all_exprs(g2['body']):
+                        if x.get('k') == 'assign' and x.get('op') == '=':
+                            l = strip_casts(x['l'])
+                            if l.get('k') == 'member' and l.get('name') == e['name'] and \
+                                    (strip_casts(l['base']).get('cty') or '').replace('const ', '').replace(' &', '').strip() == bty:
+                                found_any = True
+                                res |= self.of(g2, x['r'], seen | {fkey})
+                        if x.get('k') == 'init' and (x.get('rec') or '').split('::')[-1] == bty.split('::')[-1]:
+                            fl = dict(x['fields'])
+                            if e['name'] in fl:
+                                found_any = True
+                                res |= self.of(g2, fl[e['name']], seen | {fkey})
+                if found_any:
+                    return res
             return {('FIELD', show(e))}
         if k == 'ref':
             key = (f['sig'], e.get('d'), e.get('name'))
@@ -703,21 +726,6 @@ def c03(rep, tier):
                 if is_call(l, '::operator[]') and field_chain(l['obj'])[1][-1:] == ['marks']:
                     G.check(is_call(strip_casts(m.origin(f, e['r'])), 'GenState::createLabel'), '%s: marks[...] = ...' % f['q'], 'fresh label',
                             'mark table receives %s, not a fresh label' % show(e['r']), W(m, f, e))
-    # unset marks are reported
-    errs = [ev for ev in gp.calls_to('GenState::err')]
-    loopok = False
-    from .genrules import unconditional_callees
-    for st in [x for fb in unconditional_callees(m, pop) for x in walk_stmts(fb['body'])]:
-        if st['k'] == 'rangefor' and field_chain(st['range'])[1][-1:] == ['marks']:
-            conds = [s2 for s2 in walk_stmts(st['body']) if s2['k'] == 'if']
-            for c in conds:
-                txt = c['c']
-                if txt.get('k') == 'bin' and txt['op'] == '==' and any(x.get('k') == 'int' and x['v'] == 1 for x in walk_expr(txt['r'])):
-                    lab = [x for x in walk_expr(txt['l']) if is_call(x, '::operator[]') and field_chain(x['obj'])[1][-1:] == ['labels']]
-                    call_err = [x for x in direct_exprs(c['t']) if is_call(x, 'GenState::err') and 'UNKNOWN_MARK' in show(x)]
-                    if lab and call_err:
-                        loopok = True
-    # "not set yet" is one sentinel value: what createLabel() stores is what the unset-mark test and the backpatcher compare with
     def lit(e):
         e = strip_casts(e)
         if e is None:
@@ -727,6 +735,21 @@ def c03(rep, tier):
         if e.get('k') == 'un' and e['op'] == '-' and strip_casts(e['e']).get('k') == 'int':
             return -strip_casts(e['e'])['v']
         return None
+    # unset marks are reported
+    errs = [ev for ev in gp.calls_to('GenState::err')]
+    loopok = False
+    from .genrules import unconditional_callees
+    for st in [x for fb in unconditional_callees(m, pop) for x in walk_stmts(fb['body'])]:
+        if st['k'] == 'rangefor' and field_chain(st['range'])[1][-1:] == ['marks']:
+            conds = [s2 for s2 in walk_stmts(st['body']) if s2['k'] == 'if']
+            for c in conds:
+                txt = c['c']
+                if txt.get('k') == 'bin' and txt['op'] == '==' and (lit(txt['r']) is not None or lit(txt['l']) is not None):
+                    lab = [x for x in walk_expr(txt['l']) if is_call(x, '::operator[]') and field_chain(x['obj'])[1][-1:] == ['labels']]
+                    call_err = [x for x in direct_exprs(c['t']) if is_call(x, 'GenState::err') and 'UNKNOWN_MARK' in show(x)]
+                    if lab and call_err:
+                        loopok = True
+    # "not set yet" is one sentinel value: what createLabel() stores is what the unset-mark test and the backpatcher compare with
     cl = m.fn('GenState::createLabel')
     stored = [lit(e['args'][0]) for e in walk_all_exprs(cl['body']) if is_call(e, '::push_back') and field_chain(e['obj'])[1][-1:] == ['labels']]
     tested = []
@@ -1067,13 +1090,23 @@ def c08(rep, tier):
                 tgt, val = strip_casts(e['obj']), e['args'][0]
             if tgt is not None and is_call(tgt, '::operator[]') and table_of(tgt['obj'])[0] == 'line_info':
                 li = (ev, tgt['args'][0], val)
-            if e.get('k') == 'call' and m.callee(e).endswith('::push_back') and e.get('obj') is not None:
+            if e.get('k') == 'call' and e.get('obj') is not None and m.callee(e).split('::')[-1] in ('insert_or_assign', 'emplace', 'try_emplace') and \
+                    field_chain(strip_casts(e['obj']))[1][-1:] == ['line_info'] and len(e['args']) == 2:
+                li = (ev, e['args'][0], e['args'][1])
+            if e.get('k') == 'call' and m.callee(e).split('::')[-1] in ('push_back', 'emplace_back') and e.get('obj') is not None:
                 o = strip_casts(e['obj'])
+                if o.get('k') == 'ref' and o.get('dk') == 'var':
+                    oo = m.origin(bp, o)
+                    o = strip_casts(strip_copies(oo)) if oo is not None and oo is not o else o
                 if is_call(o, '::operator[]') and table_of(o['obj'])[0] == 'potential_breaks':
                     pbk = (ev, e['args'][0], o['args'][0])
         if li is None or pbk is None:
-            A.violation('breakpoint(): both tables', 'line_info update %s, potential_breaks update %s' % (
-                'found' if li else 'missing', 'found' if pbk else 'missing'), W(m, bp))
+            txt_all = ' '.join(show(x) for x in walk_all_exprs(bp['body']))
+            gone = [t for t, v in (('line_info', li), ('potential_breaks', pbk)) if v is None and t not in txt_all]
+            if gone:
+                A.violation('breakpoint(): both tables', '%s is not updated at all when a site is created' % ' and '.join(gone), W(m, bp))
+            else:
+                A.unknown('breakpoint(): both tables', 'update of %s not recognised' % ' / '.join(t for t, v in (('line_info', li), ('potential_breaks', pbk)) if v is None))
         else:
             A.check(position_ok(li[0], li[1]) and g.on_all_paths(li[0]), 'breakpoint(): line_info key', 'key = index of the emitted POTENTIAL_BREAK',
                     'line_info key %s is not the index of the emitted instruction' % show(li[1]), W(m, bp, li[0].e))
@@ -1531,23 +1564,92 @@ def c07(rep, tier):
     Cm.check(len(sets) == 1 and is_call(strip_casts(sets[0].e['args'][1]), 'GenState::getMarkPos'), 'dispatchMark: position', 'getMarkPos()',
              'the mark is set to %s: a jump to it skips the stop on its line' % (show(sets[0].e['args'][1]) if sets else None), W(m, dm))
     gm = m.fn('GenState::getMarkPos')
-    # summary: if last op is POTENTIAL_BREAK -> next-1 else next
-    okmp = False
-    for st in walk_stmts(gm['body']):
-        if st['k'] == 'if' and 'POTENTIAL_BREAK' in show(st['c']) and is_call(strip_casts(st['c']['l']) if st['c'].get('k') == 'bin' else None, '') is False:
-            pass
-    ifs = [st for st in walk_stmts(gm['body']) if st['k'] == 'if']
-    rets = [st for st in walk_stmts(gm['body']) if st['k'] == 'return']
-    if len(ifs) == 1 and len(rets) == 2:
-        c = ifs[0]['c']
-        backs = [x for x in walk_expr(c) if is_call(x, '::back') and field_chain(x['obj'])[1][-1:] == ['code']]
-        ispb = 'POTENTIAL_BREAK' in show(c) and c.get('k') == 'bin' and c['op'] == '=='
-        tr = [st for st in walk_stmts(ifs[0]['t']) if st['k'] == 'return']
-        r_in = strip_casts(tr[0]['e']) if tr else None
-        r_out = strip_casts([r for r in rets if r not in tr][0]['e']) if tr else None
-        okmp = bool(backs) and ispb and r_in is not None and r_in.get('k') == 'bin' and r_in['op'] == '-' and \
-            is_call(strip_casts(r_in['l']), 'GenState::getNextPos') and strip_casts(r_in['r']).get('v') == 1 and is_call(r_out, 'GenState::getNextPos')
-    Cm.check(okmp, 'getMarkPos: summary', 'index of the last instruction if it is a POTENTIAL_BREAK, else the next index',
+    # summary: if the last instruction is a POTENTIAL_BREAK -> getNextPos() - 1, else getNextPos(); evaluated for both cases
+    class _Unk(Exception):
+        pass
+
+    def mp_eval(assume):
+        env = {}
+
+        def cond(c):
+            c = strip_casts(c)
+            k = c.get('k')
+            if k == 'paren':
+                return cond(c['e'])
+            if k == 'bool':
+                return bool(c['v'])
+            if k == 'ref' and c.get('d') in env:
+                return env[c['d']]
+            if k == 'un' and c['op'] == '!':
+                return not cond(c['e'])
+            if k == 'bin' and c['op'] in ('&&', '||'):
+                return (cond(c['l']) and cond(c['r'])) if c['op'] == '&&' else (cond(c['l']) or cond(c['r']))
+            if k == 'bin' and c['op'] in ('==', '!=') and 'POTENTIAL_BREAK' in show(c) and \
+                    any(is_call(x, '::back') and field_chain(x['obj'])[1][-1:] == ['code'] for x in walk_expr(c)):
+                return assume == (c['op'] == '==')
+            if k == 'bin' and c['op'] in ('==', '!=') and any(is_call(x, '::back') and field_chain(x['obj'])[1][-1:] == ['code'] for x in walk_expr(c)) and \
+                    any(x.get('k') == 'ref' and x.get('dk') == 'enumerator' for x in walk_expr(c)) and assume:
+                # the last instruction IS a POTENTIAL_BREAK: a test for another opcode is false
+                return c['op'] == '!='
+            raise _Unk(show(c))
+
+        def val(e):
+            e = strip_casts(e)
+            k = e.get('k')
+            if k == 'paren':
+                return val(e['e'])
+            if k == 'int':
+                return (0, e['v'])
+            if k == 'bool':
+                return (0, int(bool(e['v'])))
+            if is_call(e, 'GenState::getNextPos'):
+                return (1, 0)
+            if k == 'ref' and e.get('d') in env:
+                v = env[e['d']]
+                return (0, int(v)) if isinstance(v, bool) else v
+            if k == 'cond':
+                return val(e['t']) if cond(e['c']) else val(e['e'])
+            if k == 'bin' and e['op'] in ('+', '-'):
+                a1, b1 = val(e['l']), val(e['r'])
+                sg = 1 if e['op'] == '+' else -1
+                return (a1[0] + sg * b1[0], a1[1] + sg * b1[1])
+            if k == 'bin' and e['op'] in ('==', '!=', '&&', '||'):
+                return (0, int(cond(e)))
+            raise _Unk(show(e))
+
+        def run(st):
+            k = st['k']
+            if k == 'block':
+                for c in st['s']:
+                    r = run(c)
+                    if r is not None:
+                        return r
+                return None
+            if k == 'decl':
+                for v in st['vars']:
+                    if v.get('init') is not None:
+                        try:
+                            env[v['d']] = cond(v['init']) if (v.get('cty') or '').replace('const ', '') == 'bool' else val(v['init'])
+                        except _Unk:
+                            pass
+                return None
+            if k == 'if':
+                return run(st['t']) if cond(st['c']) else (run(st['e']) if st.get('e') else None)
+            if k == 'return':
+                return val(st['e'])
+            if k in ('expr', 'empty'):
+                return None
+            raise _Unk(k)
+        return run(gm['body'])
+    okmp = None
+    try:
+        okmp = mp_eval(True) == (1, -1)
+        if okmp:
+            okmp = mp_eval(False) == (1, 0)
+    except _Unk as ex:
+        Cm.unknown('getMarkPos: summary', 'cannot evaluate getMarkPos (%s)' % ex)
+    if okmp is not None:
+      Cm.check(okmp, 'getMarkPos: summary', 'index of the last instruction if it is a POTENTIAL_BREAK, else the next index',
              'getMarkPos no longer resolves to the site just emitted', W(m, gm))
     D = rep.rule('C07.d', 'the site emitted for a PROGRAM header is removed before the routine is lowered', floor=1)
     dvd = m.fn('dispatchVoid')
@@ -1838,6 +1940,10 @@ def c20_gen(rep, tier):
             # tabled exception: exactly one call site whose argument was converted by the checked sibling before
             users = [(g2, c2) for g2 in facts.functions for c2 in walk_all_exprs(g2['body'])
                      if c2.get('k') == 'call' and c2.get('callee') == f['q'] and g2['file'] == f['file']]
+            if (call.get('callee') or '') not in CONV:
+                # the conversion sits behind a returning wrapper: this call is the (one) use to justify
+                users = [(f, call)]
+                silent_fns.add((call['callee'], f['file']))
             exc = silent_exception(facts, mm, f, users)
             if exc[0]:
                 A2.ok(inst, 'silent conversion, accepted: ' + exc[1], '%s:%d' % (os.path.relpath(f['file'], facts.repo), call['loc'][0]))
